@@ -151,6 +151,10 @@ def scenario_for(seed, index, tier):
         s, k = sweep[index]
         sc = base_scenario(make_rng('sweep', ID, seed, s), small=True)
         sc['net']['cut_plan'] = {'0': [k]}
+        # how long the rest of the stream takes to arrive varies too: a
+        # second, or longer than any plausible I/O timeout
+        sc['net']['cut_pause_us'] = [1000000, 31000000, 1000000,
+                                     400000000][(k + s) % 4]
         sc['variant'] = 'cut-sweep'
         sc['cut'] = k
         return sc
@@ -198,6 +202,8 @@ def scenario_for(seed, index, tier):
     elif v < 0.9:
         # a few explicit cuts with long pauses
         sc['net']['cut_plan'] = {'0': sorted(rng.sample(range(1, 400), 3))}
+        sc['net']['cut_pause_us'] = rng.choice([1000000, 12000000, 61000000,
+                                                900000000])
         sc['variant'] = 'three-cuts'
     else:
         sc['variant'] = 'whole-frames'
@@ -589,7 +595,7 @@ def evidence(tier, seed, m, d):
     ev = common.base_evidence(
         sys.modules[__name__], tier, seed, m, d,
         rule='cases: (a) every cut position of %d short server streams '
-             '(first k bytes readable, rest 1 s later), (b) seeded scenarios: '
+             '(first k bytes readable, rest 1 s / 31 s / 400 s later), (b) seeded scenarios: '
              'threshold in {none,-1,0,1,2,16,64,256,1024} x cipher on/off x '
              'up to 25 clientbound frames (sizes around threshold-1/'
              'threshold/threshold+1, unknown ids, up to 8 KiB) and up to 12 '
